@@ -15,6 +15,7 @@ Emit  == PrintT(<<"BEHAV", ToJson(hist')>>)
 \* command words: "go"; one with an embedded NUL and a byte >= 128 ("g\0\310"); a longer one
 \* of that kind whose hash needs 64 bits ("s\0\310op")
 CTexts == {<<103, 111>>, <<115, 0, 200, 111, 112>>}
+CTextsT == {<<115, 0, 200, 111, 112>>}
 CHRs   == {<<1, 0>>}                                  \* table shapes: one handler result
 CTexts1 == {<<103, 0, 200>>}
 CTextsF == {<<103, 111>>}
